@@ -1,4 +1,5 @@
 import PlaybackProofs.RecorderIdle
+import PlaybackProofs.RecorderFinish
 /-!
 # C05 — A recording is persisted whole or not at all, and finalised exactly once
 
@@ -85,7 +86,51 @@ theorem C05_saved_is_whole (cfg : OpCfg) (s : St) (r : Recording) :
     (saveRecording s cfg r).store = (if cfg.saveFailsOn r.data then s.store else r :: s.store) := by
   unfold saveRecording; split <;> simp [addLog]
 
+/-- Finalisation closes the recording object: after the operation, a late write to the recording it created (a worker
+thread that outlives the operation, a caller that kept the object) is rejected - unless the cassette's save raised
+(the one case in which `save_recording` does not reach `close()`). -/
+theorem C05_finalised_rejects_writes (ao : AliasOracle) (cfg : OpCfg) (s : St) (p : Prog)
+    (hidle : s.Idle) (hen : s.enabled = true) (hsk : cfg.params.skipped = false)
+    (hsv : ∀ d, cfg.saveFailsOn d = false) :
+    lateWrite (runOperation ao cfg s p).1 s.nextId = .error "AssertionError" := by
+  have hdec := runOperation_decision ao cfg s p hidle hen hsk
+  have hclosed : isClosed (runOperation ao cfg s p).1 s.nextId = true := by
+    cases hact : (atFinally cfg s p).active with
+    | none =>
+      rw [hact] at hdec
+      simp only [isClosed, hdec.1]
+      simp
+    | some a =>
+      rw [hact] at hdec
+      obtain ⟨_, _, hlog, _⟩ := hdec
+      cases hk : keepDecision (atFinally cfg s p).forced cfg.params (headDraw s) with
+      | false =>
+        rw [hk] at hlog
+        simp only [isClosed, hlog]
+        simp
+      | true =>
+        have hst := runOperation_saved ao cfg s p a hidle hen hsk hact hk (hsv a.data)
+        simp only [isClosed, hst, fetch]
+        simp
+  simp [lateWrite, hclosed]
+
+/-- … and the converse case: a save that raises leaves the recording open (nothing was stored, nothing was aborted). -/
+theorem C05_failed_save_leaves_open (s : St) (cfg : OpCfg) (r : Recording) (hf : cfg.saveFailsOn r.data = true)
+    (hopen : isClosed s r.id = false) : isClosed (saveRecording s cfg r) r.id = false := by
+  simp only [isClosed, Bool.or_eq_false_iff] at hopen ⊢
+  unfold saveRecording
+  simp only [hf, if_true, addLog]
+  refine ⟨?_, hopen.2⟩
+  have h1 := hopen.1
+  simp only [List.contains_eq_mem, List.mem_append, List.mem_cons, List.mem_nil_iff, decide_eq_false_iff_not] at h1 ⊢
+  intro h
+  rcases h with h | h | h
+  · exact h1 h
+  · cases h
+  · exact h
+
 /-! Non-vacuity -/
+example : ∀ d, ({ cls := "Op" } : OpCfg).saveFailsOn d = false := fun _ => rfl
 example : Scope [] 0 ({ active := some { id := 0, data := [], params := {} }, log := [.create 0], enabled := true } : St) :=
   ⟨rfl, rfl, Or.inl ⟨_, rfl, rfl, rfl⟩⟩
 example : Scope [] 0 ({ log := [.create 0, .abort 0], enabled := true } : St) ∧ ({ log := [Ev.create 0, .abort 0], enabled := true } : St).active = none :=
